@@ -33,7 +33,7 @@ HexDigits(s, acc, prevUS) ==
   IF s = <<>> THEN (IF prevUS THEN -1 ELSE acc)
   ELSE IF Head(s) = US THEN (IF prevUS THEN -1 ELSE HexDigits(Tail(s), acc, TRUE))
   ELSE IF HexVal(Head(s)) < 0 THEN -1
-  ELSE HexDigits(Tail(s), acc * 16 + HexVal(Head(s)), FALSE)
+  ELSE HexDigits(Tail(s), IF acc >= 16777216 THEN 16777216 ELSE acc * 16 + HexVal(Head(s)), FALSE)     \* saturating (32-bit TLC integers)
 ParseHex(raw) ==
   LET s0 == Strip(raw)
       neg == s0 # <<>> /\ Head(s0) = HY
@@ -139,7 +139,8 @@ Terminal == phase \in {"done", "e400", "e413"}
 RECURSIVE AllHex(_)
 AllHex(s) == s = <<>> \/ (IsHex(Head(s)) /\ AllHex(Tail(s)))
 RECURSIVE HexNum(_, _)
-HexNum(s, acc) == IF s = <<>> THEN acc ELSE HexNum(Tail(s), acc * 16 + HexVal(Head(s)))
+\* (saturating at 2^24: TLC integers are 32 bit; no body in any check is that long, so any larger size means "more than there is")
+HexNum(s, acc) == IF s = <<>> THEN acc ELSE HexNum(Tail(s), IF acc >= 16777216 THEN 16777216 ELSE acc * 16 + HexVal(Head(s)))
 RECURSIVE RefChunks(_, _, _)
 RefChunks(s, p, acc) ==
   LET e == FindFrom(s, <<CR, LF>>, p) IN
